@@ -15,6 +15,7 @@ import (
 )
 
 var verifDir = "/verif"
+var saveN int
 
 func main() {
 	if len(os.Args) < 2 {
@@ -69,7 +70,11 @@ func main() {
 		if err != nil {
 			panic(err)
 		}
-		debugFn(eng, os.Args[2])
+		if len(os.Args) > 3 && os.Args[3] == "loops" {
+			debugLoops(eng, os.Args[2])
+		} else {
+			debugFn(eng, os.Args[2])
+		}
 	case "replay":
 		os.Exit(runReplay(repo, os.Args[2]))
 	default:
@@ -118,6 +123,16 @@ func runDump(repo, key, mode string) int {
 	solveAll(vc.obls, dir, 12, 5, 60)
 	for _, o := range vc.obls {
 		fmt.Printf("%-8s %-14s %6.2fs %s %v\n", o.Result, o.Solver, o.Seconds, o.Name, o.Props)
+		if pat := os.Getenv("VCGO_SAVE"); pat != "" && strings.Contains(o.Name, pat) && o.Result != "unsat" {
+			saveN++
+			os.WriteFile(fmt.Sprintf("/tmp/save_%d.smt2", saveN), []byte(o.smtText), 0o644)
+			if o.smtFull != "" {
+				os.WriteFile(fmt.Sprintf("/tmp/save_%d.full.smt2", saveN), []byte(o.smtFull), 0o644)
+			}
+		}
+		if os.Getenv("VCGO_COVER_SMT") != "" && o.Cover && o.Result == "timeout" {
+			os.WriteFile("/tmp/cover_"+sanitize(o.Name)+".smt2", []byte(o.smtText), 0o644)
+		}
 		if (o.Result != "unsat" && !o.Cover) || (o.Cover && o.Result == "unsat") {
 			if os.Getenv("VCGO_SMT") != "" {
 				fmt.Println(o.smtText)
